@@ -16,6 +16,25 @@ NOTES = ('Every check executes the implementation in /repo/src (working tree) '
          'DESIGN.md.')
 
 CHECKS = [
+    {'id': 'C14', 'engine': 'explore', 'level': 'exploration',
+     'design_ref': 'DESIGN.md §4 C14',
+     'technique': 'exhaustive small-scope enumeration of directory trees x '
+                  'discovery configurations x os.walk listing orders (proxy '
+                  'for find.os) with import side effects recorded, against a '
+                  'reference predicate written from the statement',
+     'text': 'Every combination of <=3 (thorough: 4) root entries out of 19 '
+             '(test-named and other files, tests/ in 4 variants, pkg/ in 4 '
+             'variants, six directories that must be skipped) is materialised '
+             'on tmpfs and discovered by the real runner under 17 '
+             'configurations (patterns, duplicate/nested/reversed search '
+             'paths, --test-path, --package-path, -m positive/negated/'
+             'alternation incl. with --package-path, -s, --ignore_dir) and 3 '
+             '(5) directory listing orders; every module logs its import and '
+             'the import sequence must equal the sorted, de-duplicated, '
+             'filtered reference list - nothing else imported, nothing twice.',
+     'note': 'Symlinked directories and --usecompiled discovery are outside '
+             'the alphabet; one known finding (module-name collision under '
+             'nested search paths) is listed in known_findings.json.'},
     {'id': 'C15', 'engine': 'explore', 'level': 'exploration',
      'design_ref': 'DESIGN.md §4 C15',
      'technique': 'exhaustive small-scope enumeration of directory trees x '
